@@ -1,10 +1,10 @@
 SPECIFICATION Spec
 CONSTANTS
-  KindNames = {"nested", "flat", "outer", "inner", "aonly"}
+  KindNames = {"nested", "flat", "outer", "inner"}
   QFieldSeq <- FS6
   MaxA = 2
   MaxC = 2
-  MaxB = 2
+  MaxB = 1
   MaxNodes = 3
   L2Forms = {"conj-il", "conj-li", "disj-il", "must-i-not-l", "must-l-not-i", "must-l-should-i", "conj-cc", "conj-cd", "disj-cc"}
   Ordered = FALSE
